@@ -28,6 +28,7 @@ use vstd::prelude::*;
 //@@default-rule X6.world s/self\.(was_aborted|spawn_new_tasks|run_until_settled|is_done|process)\(\)/self.\1(Tracked(w))/
 //@@default-rule X6.world s/\.wake_join_handles\(\)/.wake_join_handles(Tracked(w))/
 //@@default-rule X6.world s/\.is_aborted\(\)/.is_aborted(Tracked(w))/
+//@@default-rule X6.world s/\.try_write\(\)/.try_write(Tracked(w))/
 
 verus! {
 
@@ -60,12 +61,14 @@ pub tracked struct World {
     pub ghost y_events: Seq<int>,    // events yielded by `command.next()`, oldest first
     pub ghost y_effects: Seq<int>,   // effects yielded by `command.next()`, oldest first
     pub ghost y_ended: bool,         // `command.next()` has returned None
+    // ---- join handles
+    pub ghost jw_sent: nat,          // wakers registered with awaited tasks through JoinHandle::poll (count)
 }
 
 /// identity of a value travelling through a channel (uninterpreted: only equality matters)
 pub uninterp spec fn val_id<T>(t: T) -> int;
 
-pub enum Role { Spawn, Ready, Events, Effects, CSpawn, CReady, CEvents, CEffects, Other }
+pub enum Role { Spawn, Ready, Events, Effects, CSpawn, CReady, CEvents, CEffects, JoinWakers, Other }
 
 pub open spec fn core_part_eq(a: World, b: World) -> bool {
     a.spawn == b.spawn && a.ready == b.ready && a.events == b.events && a.effects == b.effects
@@ -126,6 +129,7 @@ pub open spec fn queue_len(w: World, r: Role) -> nat {
     match r {
         Role::Spawn => w.spawn, Role::Ready => w.ready, Role::Events => w.events.len(), Role::Effects => w.effects.len(),
         Role::CSpawn => w.c_spawn, Role::CReady => w.c_ready, Role::CEvents => w.c_events.len(), Role::CEffects => w.c_effects.len(),
+        Role::JoinWakers => 0, // only counted (jw_sent), never read as a queue here
         Role::Other => 0,
     }
 }
@@ -143,6 +147,7 @@ pub open spec fn popped(w1: World, w2: World, r: Role, id: int) -> bool {
         Role::CReady => w2 == World { c_ready: (w1.c_ready - 1) as nat, ..w1 },
         Role::CEvents => id == w1.c_events[0] && w2 == World { c_events: w1.c_events.drop_first(), ..w1 },
         Role::CEffects => id == w1.c_effects[0] && w2 == World { c_effects: w1.c_effects.drop_first(), ..w1 },
+        Role::JoinWakers => true,
         Role::Other => true,
     }
 }
@@ -156,6 +161,7 @@ pub open spec fn pushed(w1: World, w2: World, r: Role, id: int) -> bool {
         Role::CReady => w2 == World { c_ready: w1.c_ready + 1, ..w1 },
         Role::CEvents => w2 == World { c_events: w1.c_events.push(id), ..w1 },
         Role::CEffects => w2 == World { c_effects: w1.c_effects.push(id), ..w1 },
+        Role::JoinWakers => w2 == World { jw_sent: w1.jw_sent + 1, ..w1 },
         Role::Other => true,
     }
 }
@@ -761,6 +767,19 @@ pub mod core_m {
                 *final(w) == (World { model_locked: true, ..*old(w) }),
         { unimplemented!() }
     }
+    pub enum TryLockError<G> { Poisoned(PoisonError<G>), WouldBlock }
+    impl<T> RwLock<T> {
+        // std RwLock::try_write: takes the lock if it is free; another thread may hold it
+        // (WouldBlock) at any time - which of the two happens is not known
+        #[verifier::external_body]
+        pub fn try_write(&self, Tracked(w): Tracked<&mut World>) -> (r: Result<RwLockWriteGuard<T>, TryLockError<RwLockWriteGuard<T>>>)
+            requires
+                !old(w).model_locked,
+            ensures
+                r is Ok ==> *final(w) == (World { model_locked: true, ..*old(w) }),
+                r is Err ==> *final(w) == *old(w) && r->Err_0 is WouldBlock, // ASSUMED: not poisoned (as for write)
+        { unimplemented!() }
+    }
     /// `drop(guard)` (rule X4: std::mem::drop of the write guard releases the lock)
     #[verifier::external_body]
     pub fn drop_write_guard<T>(Tracked(w): Tracked<&mut World>, g: RwLockWriteGuard<T>)
@@ -1360,7 +1379,8 @@ pub mod command_m {
                 final(w).c_spawn >= old(w).c_spawn + 1, // [C01/CommandContext::spawn/the-new-task-enters-the-commands-spawn-queue]
                 is_quiet(make_future) ==> *final(w) == (World { c_spawn: old(w).c_spawn + 1, ..*old(w) }), // [C01/CommandContext::spawn/exactly-one-task-is-queued-and-nothing-else-changes]
                 !(r.aborted.flag() is CommandAborted), // [C06/CommandContext::spawn/aborting-the-join-handle-does-not-abort-the-command]
-//@rule X6.channel-role 1 s/crossbeam_channel::unbounded\(\)/new_channel(Tracked(w), Ghost(Role::Other))/
+                r.register_waker.role() is JoinWakers, // [C07/CommandContext::spawn/the-join-handle-registers-its-wakers-with-the-new-task]
+//@rule X6.channel-role 1 s/crossbeam_channel::unbounded\(\)/new_channel(Tracked(w), Ghost(Role::JoinWakers))/
 //@rule X6.flag-role 2 s/(finished|aborted): Default::default\(\),/\1: new_flag(Tracked(w), Ghost(Flag::Other)),/
 //@rule X6.user-code 1 s/let future = make_future\(ctx\);/let future = call_task_maker(Tracked(w), make_future, ctx);/
 //@rule X5.boxed 1 s/future\.boxed\(\)/boxed(future)/
@@ -1396,6 +1416,45 @@ pub mod command_m {
                 item matches CommandOutput::Event(e) ==> pushed(*old(w), *final(w), old(self).events.role(), val_id(e)), // [C01+C03/CommandSink::start_send/an-event-goes-to-the-hosts-event-channel-exactly-once]
                 *final(self) == *old(self),
 //@rule X8.closure-wildcard * s/\|_\|/|_e|/
+//@end
+    }
+
+    impl Clone for Waker {
+        // ASSUMED: std Waker::clone - a clone wakes the same task
+        #[verifier::external_body]
+        fn clone(&self) -> (r: Self) { unimplemented!() }
+    }
+    impl JoinHandle {
+//@extract id=JoinHandle::is_finished file=crux_core/src/command/executor.rs within="impl JoinHandle" item="fn is_finished" props=C07
+//@expect pub(crate) fn is_finished(&self) -> bool
+//@sig pub fn is_finished(&self, Tracked(w): Tracked<&mut World>) -> (r: bool)
+//@contract
+            ensures
+                *final(w) == *old(w), // [C07/JoinHandle::is_finished/only-reads-the-tasks-finished-flag]
+//@end
+
+//@extract id=JoinHandle::abort file=crux_core/src/command/executor.rs within="impl JoinHandle" item="fn abort" props=C06
+//@expect pub fn abort(&self)
+//@sig pub fn abort(&self, Tracked(w): Tracked<&mut World>)
+//@contract
+            requires
+                !(self.aborted.flag() is CommandAborted), // a handle made by CommandContext::spawn (proved above)
+            ensures
+                *final(w) == *old(w), // [C06/JoinHandle::abort/does-not-touch-the-commands-abort-flag-or-any-queue]
+//@end
+
+//@extract id=JoinHandle::poll file=crux_core/src/command/executor.rs within="impl Future for JoinHandle" item="fn poll" props=C07
+//@expect fn poll(self: Pin<&mut Self>, cx: &mut Context<'_>) -> Poll<Self::Output>
+//@expect fn poll(mut self: Pin<&mut Self>, cx: &mut Context<'_>) -> Poll<Self::Output>
+//@sig pub fn poll(&mut self, Tracked(w): Tracked<&mut World>, cx: &mut Context<'_>) -> (r: Poll<()>)
+//@contract
+            requires
+                old(self).register_waker.role() is JoinWakers,
+            ensures
+                r is Pending ==> final(w).jw_sent == old(w).jw_sent + 1, // [C07/JoinHandle::poll/pending-only-with-this-polls-waker-registered-with-the-awaited-task]
+                *final(w) == (World { jw_sent: final(w).jw_sent, ..*old(w) }), // [C07/JoinHandle::poll/touches-nothing-else]
+                final(self).register_waker.role() is JoinWakers,
+//@rule X6.world * s/self\.is_finished\(\)/self.is_finished(Tracked(w))/
 //@end
     }
 
